@@ -4,7 +4,7 @@ import numpy as np
 import nets
 
 PID = "C08"
-THEOREMS = ["push_fold", "strahler_spec", "kids_mem", "classic_spec", "main_upstream_spec", "strahler_fits"]
+THEOREMS = ["push_fold", "strahler_spec", "kids_mem", "classic_spec", "main_upstream_spec", "strahler_fits", "gen_main_upstream_eq"]
 RULE = ("all loop-free closed graphs on n<=5 cells (n<=6 thorough, junction degree up to 5) x downstream-closed masks, "
         "stars with 3..8 tributaries of prescribed orders (every multiset over {1,2,3} up to size 5, random up to 8), "
         "random forests to 60 cells, upstream-area fields with ties for main_upstream; kernels and "
@@ -80,7 +80,8 @@ def cases(tier, rng):
         m = rng.choice(closed_masks(ds, rng, 1))
         api = rng.choice(["vec", "ras"])
         typ = rng.choice([804, 805])
-        yield {"k": typ, "args": [ds, nets.topo_order(ds), [int(m is not None)], m or []], "call": {"api": api}, "group": f"rand-{'strahler' if typ == 804 else 'classic'}-{api}"}
+        yield {"k": typ, "args": [ds, nets.topo_order(ds), [int(m is not None)], m or []],
+               "call": {"api": api, "pre": rng.choice([None, None, "classic", "strahler"])}, "group": f"rand-{'strahler' if typ == 804 else 'classic'}-{api}"}
         yield {"k": 803, "args": [ds, [rng.randint(0, 4) for _ in range(n)], [rng.choice([0, 0, 2])]], "group": "rand-main"}
         # fractional areas: quarters, so that floor() would change the ranking
         yield {"k": 803, "args": [ds, [rng.randint(0, 9) for _ in range(n)], [rng.choice([0, 0, 2])]],
@@ -138,6 +139,8 @@ def impl(case):
         mask = np.array(a[3], dtype=bool)
         if api == "ras":
             mask = mask.reshape(1, n)
+    if case["call"].get("pre"):      # an earlier query of the other (or the same) kind on the same object must not matter
+        call_impl(flw.stream_order, type=case["call"]["pre"])
     st, v = call_impl(flw.stream_order, type="strahler" if k == 804 else "classic", mask=mask)
     if st != "ok":
         return [[-2], [st]]
